@@ -92,7 +92,11 @@ ArgsLoop:
 
 		if !trackNoModifyAttrsFlag {
 			for _, known := range knownPatterns {
-				if unescapeAttrPattern(known.Path) == path.Join(relpath, pattern) &&
+				knownPath := unescapeAttrPattern(known.Path)
+				// A rooted pattern in the top-level file keeps its
+				// leading slash in known.Path, while path.Join()
+				// removes it.
+				if (knownPath == path.Join(relpath, pattern) || (relpath == "." && knownPath == pattern)) &&
 					((trackLockableFlag && known.Lockable) || // enabling lockable & already lockable (no change)
 						(trackNotLockableFlag && !known.Lockable) || // disabling lockable & not lockable (no change)
 						(!trackLockableFlag && !trackNotLockableFlag)) { // leave lockable as-is in all cases
